@@ -45,6 +45,7 @@ impl Default for SupervisionTree {
 impl SupervisionTree {
     /// Transactionally replace a child's supervisor and update both parents' child sets.
     pub(crate) fn link(child: &ActorCell, supervisor: ActorCell) -> bool {
+        verif_point!("tree:link");
         let _mutation_guard = TREE_MUTATION_LOCK.lock().unwrap();
 
         if child.get_status() >= super::actor_cell::ActorStatus::Draining
@@ -84,6 +85,7 @@ impl SupervisionTree {
 
     /// Unlink a child if `supervisor` is still its current supervisor.
     pub(crate) fn unlink(child: &ActorCell, supervisor: &ActorCell) {
+        verif_point!("tree:unlink");
         let _mutation_guard = TREE_MUTATION_LOCK.lock().unwrap();
         let mut current_supervisor = child.inner.tree.supervisor.lock().unwrap();
         if !current_supervisor
@@ -102,6 +104,7 @@ impl SupervisionTree {
 
     /// Close this actor's child set and detach the children for iterative termination.
     pub(crate) fn take_children(parent: &ActorCell) -> Vec<ActorCell> {
+        verif_point!("tree:take_children");
         let _mutation_guard = TREE_MUTATION_LOCK.lock().unwrap();
         let mut children = parent.inner.tree.children.lock().unwrap();
         let cells = children
@@ -278,6 +281,7 @@ impl SupervisionTree {
             let guard = self.supervisor.lock().unwrap();
             (*guard).clone()
         };
+        verif_point!("notify_supervisor:after_read_parent");
 
         // Send to all monitors (best-effort, outside the lock)
         #[cfg(feature = "monitors")]
